@@ -3,7 +3,7 @@
 cd "$(dirname "$0")"
 ids=$(python3 -c "import json; print(' '.join(c['property_id'] for c in json.load(open('MANIFEST.json'))['checks']))")
 for p in $ids; do
-  ( python3 check.py $p --tier ${1:-quick} > /tmp/runall_$p.log 2>&1; echo "$p exit=$? $(grep -E '^(RESULT|ANALYSIS-ERROR)' /tmp/runall_$p.log | tail -1)" ) &
+  ( timeout 1500 python3 check.py $p --tier ${1:-quick} > /tmp/runall_$p.log 2>&1; echo "$p exit=$? $(grep -E '^(RESULT|ANALYSIS-ERROR)' /tmp/runall_$p.log | tail -1)" ) &
   while [ $(jobs -r | wc -l) -ge 4 ]; do sleep 0.5; done
 done
 wait
